@@ -3,6 +3,7 @@
 set -e
 rsync -a --delete --exclude harness/target --exclude harness/Cargo.toml --exclude .work --exclude replays --exclude .git --exclude evidence /verif/ /var/tmp/lab/verif/
 sed 's#path = "/repo"#path = "/var/tmp/lab/repo"#' /verif/harness/Cargo.toml > /var/tmp/lab/verif/harness/Cargo.toml
+sed -i 's#"/repo/src/#"/var/tmp/lab/repo/src/#' /var/tmp/lab/verif/harness/src/bin/*.rs
 mkdir -p /var/tmp/lab/verif/evidence
 cd /var/tmp/lab/repo && git checkout -q -- . && git checkout -q --detach "$(git -C /repo rev-parse HEAD)"
 echo "lab at $(git rev-parse --short HEAD)"
